@@ -528,6 +528,50 @@ func c08NS(args []string) int {
 					M{"xml": text, "expected": c.Exp, "actual": got})
 			}
 		}
+		// the same document streamed record by record (target: the children of the document element): what a record
+		// declares is in scope for that record only, the records after it are built as in the whole document
+		if len(c.Exp) > 0 {
+			var want [][]interface{}
+			skippingRootAttrs := true
+			for i, e := range c.Exp {
+				if i == 0 {
+					continue
+				}
+				if skippingRootAttrs && len(e) == 5 && e[0] == "A" && fmt.Sprint(e[4]) == "1" {
+					continue
+				}
+				skippingRootAttrs = false
+				want = append(want, e)
+			}
+			var gotS [][]interface{}
+			var serr error
+			pv2, _ := guarded(0, func() {
+				sr, e := idr.NewXMLStreamReader(strings.NewReader(text), "/*/*")
+				if e != nil {
+					serr = e
+					return
+				}
+				for k := 0; k < 8; k++ {
+					nd, e := sr.Read()
+					if e == io.EOF {
+						return
+					}
+					if e != nil {
+						serr = e
+						return
+					}
+					flattenNS(nd, 1, &gotS)
+					sr.Release(nd)
+				}
+			})
+			if pv2 != "" || serr != nil || jsonOf(gotS) != jsonOf(want) {
+				nviol++
+				if nviol <= 20 {
+					violation("C08", "xml-namespace-scoping-streamed", fmt.Sprintf("XML %s streamed record by record (/*/*): elements / attributes expected %v, the records have %v %v %s", text, want, gotS, serr, pv2),
+						M{"xml": text, "expected": want, "actual": gotS})
+				}
+			}
+		}
 		if c.Nt {
 			sum.sample(M{"xml": text, "expected": c.Exp})
 		}
